@@ -324,10 +324,23 @@ func (a *APK) lazilyInstallAPKFiles(ctx context.Context, wh WriteHeaderer, tf *t
 	entries := tf.Entries()
 	files := make([]tar.Header, 0, len(entries))
 
+	// The tarfs hands out file contents by name, and the last entry of a name wins whatever its type.
+	// What we lay out is read back by name later, so a name that occurs twice could be served the
+	// bytes of another entry than the one whose checksum was verified: refuse such a package.
+	// (Directories carry no content and may be listed more than once; a directory that takes the
+	// name of a file is refused when it is created.)
+	seen := make(map[string]struct{}, len(entries))
+
 	var startedDataSection bool
 	for _, file := range entries {
 		if file.Header.Name == "" {
 			return nil, fmt.Errorf("package %s contains a tar entry with an empty name", pkg.Name)
+		}
+		if file.Header.Typeflag != tar.TypeDir {
+			if _, ok := seen[file.Header.Name]; ok {
+				return nil, fmt.Errorf("package %s contains more than one tar entry named %q", pkg.Name, file.Header.Name)
+			}
+			seen[file.Header.Name] = struct{}{}
 		}
 		// per https://git.alpinelinux.org/apk-tools/tree/src/extract_v2.c?id=337734941831dae9a6aa441e38611c43a5fd72c0#n120
 		//  * APKv1.0 compatibility - first non-hidden file is
